@@ -1,9 +1,10 @@
 import GridVerif.Model.Proto
 import GridVerif.Model.Aliasing
 import GridVerif.Gen.AngularCache
+import GridVerif.Model.AliasingCfg
 
 namespace GridVerif.Driver.C19
-open GridVerif.Proto GridVerif.Aliasing GridVerif.Gen.AngularCache
+open GridVerif.Proto GridVerif.Aliasing GridVerif.Gen.AngularCache GridVerif.Gen.ModuleState
 
 /-- abstract content of the shipped file for key `(method, degree)`; edits use values `< 1000` -/
 def sp (k : Key) : Nat := 1000 + 1000 * k.1 + k.2
@@ -36,6 +37,39 @@ def setB (cls : String) : Option (Option Float → Float → Option Float) :=
   | "PowerRTransform" => some setMaxB_PowerRTransform
   | _ => none
 
+def parseMOps : List String → Option (List MOp)
+  | [] => some []
+  | "q" :: rest => (parseMOps rest).map (MOp.query :: ·)
+  | "h" :: rest => (parseMOps rest).map (MOp.handout :: ·)
+  | "s" :: v :: rest => do
+    let v ← pNat v
+    let tl ← parseMOps rest
+    pure (MOp.setSrc v :: tl)
+  | "e" :: v :: rest => do
+    let v ← pNat v
+    let tl ← parseMOps rest
+    pure (MOp.editHeld v :: tl)
+  | "i" :: v :: rest => do
+    let v ← pNat v
+    let tl ← parseMOps rest
+    pure (MOp.editSrcInPlace v :: tl)
+  | _ => none
+
+/-- abstract "value computed from the source content" of the memo machine -/
+def memoF (x : Nat) : Nat := x + 100000
+
+def memoCfgOf : String → Option MemoCfg
+  | "kdtree" => some kdtreeCfg
+  | "basis" => some basisCfg
+  | _ => none
+
+def setBChecked (cls : String) : Option (Option Float → Float → Option Float × Bool) :=
+  match cls with
+  | "LinearInfiniteRTransform" => some (setMaxBChecked_LinearInfiniteRTransform bTooSmall_LinearInfiniteRTransform)
+  | "ExpRTransform" => some (setMaxBChecked_ExpRTransform bTooSmall_ExpRTransform)
+  | "PowerRTransform" => some (setMaxBChecked_PowerRTransform bTooSmall_PowerRTransform)
+  | _ => none
+
 def handle : List String → Option String
   | "C19.run" :: rest => do
     let ops ← parseOps rest
@@ -58,6 +92,32 @@ def handle : List String → Option String
     pure ("ok " ++ String.intercalate " " (trace.map fun o => match o with | some v => sFloat v | none => "none"))
   | ["C19.facts"] =>
     pure s!"ok {discipline.pointsFreshPlain} {discipline.weightsFreshPlain} {discipline.pointsFreshScaled} {discipline.weightsFreshScaled} {coulombLoaderFresh}"
+  | "C19.bchk" :: cls :: b0 :: rest => do
+    let f ← setBChecked cls
+    let st : Option Float ← if b0 == "none" then some none else (pFloat b0).map some
+    let (mxs, tl) ← pVec pFloat rest
+    if tl ≠ [] then none else
+    -- after each call: the state and whether the call raised
+    let (_, trace) := mxs.foldl (fun (acc : Option Float × List String) mx =>
+      let (s', r) := f acc.1 mx
+      (s', acc.2 ++ [(match s' with | some v => sFloat v | none => "none") ++ " " ++ (if r then "1" else "0")])) (st, [])
+    pure ("ok " ++ String.intercalate " " trace)
+  | "C19.memo" :: which :: v0 :: rest => do
+    let cfg ← memoCfgOf which
+    let v0 ← pNat v0
+    let ops ← parseMOps rest
+    let outs := mrun cfg memoF (minit v0) ops
+    pure ("ok " ++ String.intercalate " ; " (outs.map fun (o, src) =>
+      (match o with | some v => toString v | none => "-") ++ " " ++ toString src))
+  | ["C19.objects"] =>
+    pure ("ok " ++ String.intercalate " " (moduleObjects.map fun o =>
+      o.qual ++ ":" ++ (if o.isConstant then "const" else "state") ++ ":" ++ o.kind.replace " " "_"))
+  | ["C19.state"] =>
+    pure s!"ok {functionCaches.length} {cacheImports.length} {mutableDefaults.length} {classObjects.length} {globalRebinds.length} {nonlocals.length} {lateAttrs.length} {memos.length} {setters.length} {kdtreeCfg.resetOnSet} {kdtreeCfg.handoutFresh} {basisCfg.resetOnSet} {basisCfg.handoutFresh}"
+  | ["C19.memos"] =>
+    pure ("ok " ++ String.intercalate " " (memos.map fun m =>
+      m.cls ++ "." ++ m.attr ++ ":" ++ (if m.handedOut.any (fun h => h.2 == "itself") then "itself" else "private")))
+  | ["C19.modules"] => pure ("ok " ++ String.intercalate " " modules)
   | _ => none
 
 end GridVerif.Driver.C19
